@@ -150,7 +150,7 @@ mod verif {
             Err(WriteError::WrongExpectedVersion { .. }) => { assert!(!expect_ok, "a transaction whose every expectation holds is never rejected"); }
             Err(_) => { assert!(false, "no other rejection"); }
         }
-        kani::cover!(n == 2 && s0 == s1 && expect_ok, "reachable: two accepted events on one stream");
+        kani::cover!((n < 2 || s0 == s1) && expect_ok, "reachable: an accepted transaction (two events on one stream when the harness has two events)");
     }
     #[kani::proof] #[kani::unwind(4)] fn ws_validate_one_event() { ws_validate::<1, 1>(); }
     #[kani::proof] #[kani::unwind(4)] fn ws_validate_two_events() { ws_validate::<2, 0>(); }
